@@ -211,40 +211,61 @@ def d2_status_reaches_stop(ctx, rm: REModel):
     ctx.require(cs, "anchor vanished: _compose_stop call in RunBundler.close_run")
     # what reaches compose_stop, as a function of the close_run message's keyword arguments: the values are traced through the
     # function's straight-line assignments and then EVALUATED for the cases key present / present-but-None / absent
-    def value_of(kwname):
-        e = A.kw(cs[0], kwname)
-        if e is None:
-            return None
-        # follow `x = ...` / `if x is None: x = ''` chains for plain names
-        if isinstance(e, ast.Name):
-            defs = [s_ for s_ in A.walk_stmts(cr.node.body) if any(isinstance(t, ast.Name) and t.id == e.id for t in A.targets_of(s_))]
-            return e.id, defs
-        return None, [ast.Assign(targets=[ast.Name(id="_", ctx=ast.Store())], value=e)]
+    import copy as _copy
 
     def outcome(kwname, present):
-        got = value_of(kwname)
-        if got is None:
+        """close_run interpreted statement by statement (assignments to locals, ifs) for a message whose kwargs are `present`; -> what
+        the keyword argument of compose_stop evaluates to"""
+        e = A.kw(cs[0], kwname)
+        if e is None:
             return "<missing>"
-        var, defs = got
-        val = "<unset>"
-        pmc = A.parents(cr.node)
-        for d in defs:
-            v = getattr(d, "value", None)
-            if v is None:
-                continue
-            guard = pmc.get(d)
-            if isinstance(guard, ast.If) and d in guard.body:
-                t = A.norm(guard.test)
-                cond = (val is None) if t == f"{var} is None" else ((not val) if t == f"not {var}" else None)
-                if cond is None:
-                    return "<unknown guard>"
-                if not cond:
-                    continue
-            try:
-                val = q.eval_lookup(v, "msg.kwargs", present)
-            except (ValueError, KeyError) as ex:
-                return f"<{type(ex).__name__}>"
-        return val
+        env = {}
+        aliases = set()  # locals standing for msg.kwargs
+
+        def val(expr):
+            class Sub(ast.NodeTransformer):
+                def visit_Name(self, n):
+                    if isinstance(n.ctx, ast.Load) and n.id in env:
+                        return ast.Constant(value=env[n.id])
+                    if isinstance(n.ctx, ast.Load) and n.id in aliases:
+                        return ast.Attribute(value=ast.Name(id="msg", ctx=ast.Load()), attr="kwargs", ctx=ast.Load())
+                    return n
+            return q.eval_lookup(ast.fix_missing_locations(Sub().visit(_copy.deepcopy(expr))), "msg.kwargs", present)
+
+        class Stop(Exception):
+            pass
+
+        def block(stmts):
+            for st_ in stmts:
+                if any(c is cs[0] for c in ast.walk(st_)):
+                    raise Stop()
+                tgt_ = st_.targets[0] if isinstance(st_, ast.Assign) and len(st_.targets) == 1 else (st_.target if isinstance(st_, ast.AnnAssign) and st_.value is not None else None)
+                if isinstance(tgt_, ast.Name):
+                    if A.norm(st_.value) == "msg.kwargs":
+                        aliases.add(tgt_.id)
+                        continue
+                    aliases.discard(tgt_.id)
+                    try:
+                        env[tgt_.id] = val(st_.value)
+                    except (ValueError, KeyError):
+                        env.pop(tgt_.id, None)
+                elif isinstance(st_, ast.If):
+                    try:
+                        t = val(st_.test)
+                    except (ValueError, KeyError):
+                        touched = {t_.id for x in A.walk_stmts(st_.body + st_.orelse) for t_ in A.targets_of(x) if isinstance(t_, ast.Name)}
+                        for nm in touched:
+                            env[nm] = "<unknown guard>"
+                        continue
+                    block(st_.body if t else st_.orelse)
+        try:
+            block(cr.node.body)
+        except Stop:
+            pass
+        try:
+            return val(e)
+        except (ValueError, KeyError) as ex:
+            return f"<{type(ex).__name__}>"
     S = q._Sym("given")
     exp = {"exit_status": [({"exit_status": S}, S), ({"exit_status": None}, "success"), ({}, "success")],
            "reason": [({"reason": S}, S), ({"reason": None}, ""), ({}, "")]}
